@@ -171,7 +171,7 @@ CHECKS["C01"] = dict(
          "and TLC validates each execution: returned, status true, one admissible slot per line, and every line's slot equal to the slot of that line alone. The panic / termination half is "
          "exploration driven by the model's alphabet - TLA+ cannot see Rust panics - and the evidence says so. Two non-gating layers are reported in the evidence: the rule engine "
          "(Pipeline.tla, hook-based trace validation) and the kind algebra A op B (Kinds.tla, descriptive).",
-    note="trusted: worker-process isolation with panic hook and 30 s watchdog, projection, TLC; lines <= 256 characters; custom rules are outside C01's configuration space",
+    note="trusted: worker-process isolation with panic hook and 45 s watchdog (no case is started once 24 have hung), projection, TLC; lines <= 256 characters; custom rules are outside C01's configuration space",
     ref="7 C01")
 
 NOT_YET = {
